@@ -42,6 +42,25 @@ def schema_programs():
     v = Obj('D', c=Obj('C', a=Obj('A', x=1, when=datetime.datetime(2020, 1, 2, 3, 4, 5, tzinfo=tagged.tz(0))),
                        bs=[Obj('B', x=2, when=None, y='q')], n=5), k='key', o=3, e='red')
     out.append(('three-namespaces', {'tns': TNS, 'enums': universe.ENUMS, 'classes': [A, B, C, Dd], 'services': [{'n': 'S', 'methods': [m]}]}, [[v, 7]]))
+    # named simple types in a namespace of their own; members that use them as they are and members that restrict them
+    # further (the restriction is published in the namespace of the class, its base in the namespace of the named type)
+    simples = {'Code': {'p': 'Unicode', 'attrs': {'max_len': 8}, 'type_name': 'Code', 'ns': 'urn:vf:types'},
+               'Small': {'p': 'Integer', 'attrs': {'ge': 0, 'le': 99}, 'type_name': 'Small', 'ns': 'urn:vf:types'},
+               'Local': {'p': 'Unicode', 'attrs': {'min_len': 1}, 'type_name': 'Local'},
+               'Digit': {'p': 'Integer', 'attrs': {'ge': 0, 'le': 9}, 'type_name': 'Digit'}}
+    # named types (an enum, a restricted integer) that are used as the second / third XML attribute of a class and nowhere else
+    digit = ['p', 'Integer', {'ge': 0, 'le': 9, '_from': 'Digit'}]
+    code2 = ['p', 'Unicode', {'max_len': 8, 'min_len': 2, '_from': 'Code', '_own': {'min_len': 2}}]
+    code = ['p', 'Unicode', {'max_len': 8, '_from': 'Code'}]
+    small50 = ['p', 'Integer', {'ge': 0, 'le': 50, '_from': 'Small', '_own': {'le': 50}}]
+    local = ['p', 'Unicode', {'min_len': 1, '_from': 'Local'}]
+    Item = {'n': 'Item', 'ns': 'urn:vf:a', 'fields': [['code', code2], ['n', I]]}          # the only reference of urn:vf:a to urn:vf:types
+    Item2 = {'n': 'Item2', 'fields': [['c', code], ['s', small50], ['l', local], ['ca', ['xa', code2]], ['a1', ['xa', I]], ['a2', ['xa', ['e', 'Shade', {}]]], ['a3', ['xa', digit]],
+                                      ['a4', ['xa', ['p', 'Integer', {'ge': 0, 'le': 50, '_from': 'Small', '_own': {'le': 50}}]]]]}
+    Item3 = {'n': 'Item3', 'ns': 'urn:vf:b', 'fields': [['s', ['p', 'Integer', {'ge': 0, 'le': 99, '_from': 'Small'}]], ['cs', ['a', code2, {}]]]}
+    mn = {'n': 'm', 'args': [['i', ['c', 'Item', {}]], ['j', ['c', 'Item2', {}]], ['k', ['c', 'Item3', {}]]], 'ret': ['c', 'Item', {}]}
+    out.append(('named-simple-types', {'tns': TNS, 'simples': simples, 'enums': {'Shade': ['light', 'dark']}, 'classes': [Item, Item2, Item3], 'services': [{'n': 'S', 'methods': [mn]}]},
+                [[Obj('Item', code='abc', n=1), Obj('Item2', c='x', s=50, l='y', ca='zz', a1=1, a2='dark', a3=7, a4=5), Obj('Item3', s=99, cs=['ab', 'cdefgh'])]]))
     X = {'n': 'X', 'fields': [['t', ['xd', U]], ['lang', ['xa', U]]]}
     m2 = {'n': 'm', 'args': [['x', ['c', 'X', {}]], ['z', I]], 'ret': ['c', 'X', {}]}
     out.append(('xmldata', {'tns': TNS, 'classes': [X], 'services': [{'n': 'S', 'methods': [m2]}]}, [[Obj('X', t='text', lang='en'), 1]]))
@@ -85,6 +104,30 @@ def compile_schema(h):
         return None, str(e)
 
 
+def import_problems(docs):
+    """every QName reference of a schema document into a foreign namespace needs an xs:import of that namespace in the
+    same document"""
+    XS = xsdcodec.XS
+    out = []
+    for d in docs:
+        root = etree.fromstring(d)
+        tns = root.get('targetNamespace')
+        imported = set(i.get('namespace') for i in root.findall('{%s}import' % XS))
+        for el in root.iter():
+            if not isinstance(el.tag, str):
+                continue
+            for an in ('type', 'base', 'ref', 'itemType'):
+                v = el.get(an)
+                if not v or ':' not in v:
+                    continue
+                ns = el.nsmap.get(v.split(':', 1)[0])
+                if ns is None or ns == XS or ns == tns:
+                    continue
+                if ns not in imported:
+                    out.append('schema document of namespace %r refers to %s="%s" (namespace %r) without importing that namespace' % (tns, an, v, ns))
+    return sorted(set(out))
+
+
 def payload_of(data, proto):
     doc = etree.fromstring(data)
     env = xsdcodec.envelope_ns(proto)
@@ -111,6 +154,11 @@ def emitted_documents(program, arg_cases, res, site, casebase, tier):
                                       'case': dict(casebase, proto=proto, only='compile'), 'count': 1})
             continue
         res['cov']['schemas_compiled'] = res['cov'].get('schemas_compiled', 0) + 1
+        for prob in import_problems(h.docs):
+            # XSD src-resolve: a schema document may only refer to components of a foreign namespace it imports
+            # (libxml2 resolves them anyway once some other document of the set has loaded that namespace)
+            res['violations'].append({'sig': 'C06|schema-import-missing|%s' % (site.split('|')[0] if '|' in site else site),
+                                      'what': '[%s] %s' % (proto, prob), 'case': dict(casebase, proto=proto, only='compile'), 'count': 1})
         client = None
         if style == 'wrapped':
             capp = spec.make_app(h.b, harness.make_proto(proto), harness.make_proto(proto))
